@@ -217,11 +217,11 @@ def sgprInit (D : Dispatch) (wgid : C08.Coord) : List (Nat × Nat) :=
   let p4 := if D.dispatchID then p3 + 2 else p3
   let p5 := if D.flatScratch then p4 + 2 else p4
   let p6 := if D.privSegSize then p5 + 1 else p5
-  let l7 := if D.wgCountX then [(p6, (g.gx + g.wx - 1) % two32 / g.wx)] else []
+  let l7 := if D.wgCountX then [(p6, (g.gx + g.wx - 1) / g.wx % two32)] else []
   let p7 := if D.wgCountX then p6 + 1 else p6
-  let l8 := if D.wgCountY then [(p7, (g.gy + g.wy - 1) % two32 / g.wy)] else []
+  let l8 := if D.wgCountY then [(p7, (g.gy + g.wy - 1) / g.wy % two32)] else []
   let p8 := if D.wgCountY then p7 + 1 else p7
-  let l9 := if D.wgCountZ then [(p8, (g.gz + g.wz - 1) % two32 / g.wz)] else []
+  let l9 := if D.wgCountZ then [(p8, (g.gz + g.wz - 1) / g.wz % two32)] else []
   let p9 := if D.wgCountZ then p8 + 1 else p8
   let l10 := if D.wgIDX then [(p9, wgid.1 % two32)] else []
   let p10 := if D.wgIDX then p9 + 1 else p9
